@@ -1685,15 +1685,17 @@ class PyCdlib:
 
                 if self.isohybrid_mbr is not None:
                     if enc.platform_id == 0xef:
-                        if num_seen_efi == 0:
+                        # The first EFI image goes into the EFI partition and
+                        # the second one into the Mac partition, if the
+                        # hybridization was asked to have them; any other EFI
+                        # images are of no concern to the hybrid boot sector.
+                        if num_seen_efi == 0 and self.isohybrid_mbr.efi:
                             self.isohybrid_mbr.update_efi(current_extent,
                                                           enc.entry.sector_count,
                                                           self.pvd.space_size * self.logical_block_size)
-                        elif num_seen_efi == 1:
+                        elif num_seen_efi == 1 and self.isohybrid_mbr.mac:
                             self.isohybrid_mbr.update_mac(current_extent,
                                                           enc.entry.sector_count)
-                        else:
-                            raise pycdlibexception.PyCdlibInternalError('Only expected two EFI sections')
                         num_seen_efi += 1
                     elif enc.platform_id == 0:
                         self.isohybrid_mbr.update_rba(current_extent)
